@@ -144,6 +144,14 @@ func props() map[string]Prop {
 			},
 			Assume: []string{"the server's own configuration lists well-formed Go versions (goN.M[.P|rcK]) and semantic versions", "objects are named <day>/<X>.json as the upload endpoint names them, so one day holds one object per X"},
 		},
+		{
+			ID: "C17", Level: "exploration",
+			Units: []Unit{
+				{Name: "parse", Pkg: "internal/chartconfig", Harness: "internal_chartconfig", Run: "^TestVerifC17Parse$", Instrument: []string{"internal/chartconfig"}, Timeout: 30 * time.Minute},
+				{Name: "generate", Pkg: "internal/configgen", Harness: "internal_configgen", Run: "^TestVerifC17Gen$", Timeout: 30 * time.Minute},
+			},
+			Assume: []string{"proxy answers are replaced through the package's versionsForTesting variable", "padVersions inputs are duplicate-free canonical semver lists, as a module proxy returns", "values cannot contain '#', braces outside counter fields, or leading/trailing blanks (documented syntax)"},
+		},
 	}
 	m := map[string]Prop{}
 	for _, p := range ps {
